@@ -323,7 +323,7 @@ func (c *Ctx) writeEvidence(ch *Check) error {
 		"wall_s":      float64(int(time.Since(c.start).Seconds()*100)) / 100,
 		"violations":  c.violations,
 	}
-	if ev["assumptions"] == nil {
+	if c.assumptions == nil { // a typed nil slice would be written as null
 		ev["assumptions"] = []string{}
 	}
 	b, err := json.MarshalIndent(ev, "", " ")
